@@ -102,7 +102,7 @@ def _convert_proxy(real, x):
         if v.kind == "complex":
             # numpy discards the imaginary part (with a warning)
             return SNum(T.V("float", v.re), rt)
-        return SNum(T.V("float", T.to_real(v.re)), rt)
+        return SNum(T.V("float", T.to_f64(v.re)), rt)
     return SNum(T.lift(v, "complex"), rt)
 
 
